@@ -15,8 +15,10 @@ of the rule in the source changes the regenerated definition and this proof no l
 namespace QipVerif.Sched
 open QipVerif.Gen.SchedRule
 
-/-- the instruction's flag `sc` is membership of its name in the tree's `_SELF_COMMUTING_GATES` -/
-def TreeIns (a : Ins) : Prop := a.sc = inSet a.name
+/-- the instruction's flag `sc` is what the tree's rule asks of an instruction before it declares it commuting with a
+gate of its own name (`Gen.SchedRule.flagged`): the name is in `_SELF_COMMUTING_GATES` and, on a tree with the guard on
+gates given by many targets (`lenBound`), it has at most that many targets -/
+def TreeIns (a : Ins) : Prop := a.sc = flagged a
 
 instance (a : Ins) : Decidable (TreeIns a) := inferInstanceAs (Decidable (_ = _))
 
@@ -35,16 +37,8 @@ theorem gen_chain_eq_CX (x y : Ins) :
      else false) = CX x y := by
   rw [contains_two, contains_two, ite_tf, ite_tf, chain_eq_CX]
 
-/-- the same-name part -/
-theorem gen_same_eq (a b : Ins) :
-    (if (!(inSet a.name)) then false
-     else if ((!a.controls.isEmpty) && (a.controls == b.controls)) then true
-     else if (a.targets == b.targets) then true else false) =
-    (inSet a.name && ((!a.controls.isEmpty && a.controls == b.controls) || a.targets == b.targets)) := by
-  rw [ite_tf]
-  cases inSet a.name <;> cases (!a.controls.isEmpty && a.controls == b.controls) <;> simp
-
-/-- **commRules_eq_gen.**  The model's rule is the regenerated rule. -/
+/-- **commRules_eq_gen.**  The model's rule is the regenerated rule (both variants of the same-name part: with and
+without the guard on gates given by more than `lenBound` targets). -/
 theorem commRules_eq_gen (a b : Ins) (ha : TreeIns a) (hb : TreeIns b) :
     commRules a b = commutationRules a b := by
   unfold TreeIns at ha hb
@@ -52,7 +46,12 @@ theorem commRules_eq_gen (a b : Ins) (ha : TreeIns a) (hb : TreeIns b) :
   unfold commutationRules
   by_cases hn : a.name = b.name
   · have hne : (a.name != b.name) = false := by simp [hn]
-    rw [if_pos hn, if_neg (by rw [hne]; exact Bool.false_ne_true), gen_same_eq, ha, hb, ← hn, Bool.and_self]
+    rw [if_pos hn, if_neg (by rw [hne]; exact Bool.false_ne_true), ha, hb]
+    unfold flagged lenBound
+    rw [← hn]
+    cases inSet a.name <;> cases (!a.controls.isEmpty && a.controls == b.controls) <;>
+      cases (a.targets == b.targets) <;> by_cases h4 : a.targets.length ≤ 2 <;>
+      by_cases h5 : b.targets.length ≤ 2 <;> simp_all
   · have hne : (a.name != b.name) = true := by simpa using hn
     rw [if_neg hn, if_pos hne]
     by_cases hlt : b.name < a.name
@@ -63,7 +62,7 @@ theorem commRules_eq_gen (a b : Ins) (ha : TreeIns a) (hb : TreeIns b) :
 
 /-- the instruction list handed to the model by the driver: every flag is computed from the regenerated set -/
 def treeIns (name : String) (targets controls : List Nat) (dur : Int) : Ins :=
-  ⟨name, targets, controls, dur, inSet name⟩
+  ⟨name, targets, controls, dur, flagged ⟨name, targets, controls, dur, true⟩⟩
 
 theorem treeIns_tree (name : String) (targets controls : List Nat) (dur : Int) :
     TreeIns (treeIns name targets controls dur) := rfl
